@@ -120,6 +120,7 @@ pub fn translate(src: &str, opts: &Options) -> Res<String> {
         no_hoist: 0,
         last_borrow: None,
         effect_seen: false,
+        last_effect_result: None,
         bits_ctx: None,
         ret_borrow: None,
         effect_info: vec![],
